@@ -671,6 +671,10 @@ def inline_model(prog, names, fallback=None, depth=0):
                         inputs[k] = v
                 for prm, a in zip(cf.params, args):
                     inputs[prm["n"]] = a
+                    # pointer to a variable of the caller: the callee reads it as *param
+                    if isinstance(a, Ptr) and getattr(a, "addr", False) and isinstance(a.what, str) and "->" not in a.what and "[" not in a.what \
+                            and "." not in a.what:
+                        inputs["*" + prm["n"]] = I.read(p, a.what)
                 sub = Interp(cf, inputs=inputs, call_model=inline_model(prog, names, fallback, depth + 1), on_unknown="both", prog=prog,
                              max_paths=2000)
                 paths = sub.run()
@@ -770,6 +774,8 @@ def list_overrides(lists, prefix_len="List_length", prefix_at="List_elementAt"):
         a, idx = args[0], args[1]
         out = strip(node["a"][2])
         key = lvalue_key(out["e"], I.fn) if isinstance(out, dict) and out.get("k") == "un" and out["op"] == "&" else None
+        if key is None and len(args) > 2 and isinstance(args[2], Ptr) and getattr(args[2], "addr", False) and lvalue_key(out, I.fn):
+            key = "*" + lvalue_key(out, I.fn)        # the out-pointer is itself a pointer parameter (inlined helper)
         if isinstance(a, Ptr) and a.what in lists and isinstance(idx, int):
             if 0 <= idx < len(lists[a.what]):
                 if key:
